@@ -132,6 +132,12 @@ func (s *Socket) RecvMsg(b []byte) (int, Msg, error) {
 		// the message is dropped, but the kernel has already installed the
 		// file descriptors that came with it
 		closeRights(s.recvBuff[:oobn])
+		if flags&syscall.MSG_TRUNC == 0 {
+			// only the control data was cut (the process is short of file
+			// descriptors): the n bytes of data are complete. They are reported
+			// for callers that keep state across messages
+			return n, msg, errMessageTruncated
+		}
 		return 0, msg, errMessageTruncated
 	}
 	// parse oob msg
